@@ -722,3 +722,258 @@ Section Discard.
         * apply (attach_infl r P GP U GQ Q F e HR He). exact Hd.
   Qed.
 End Discard.
+
+(** * reclaim_data: the repaired walk ends on the first data-bearing unused entry *)
+Lemma ptr_reclaim r P GP U GQ Q F em x fu' :
+  Rl r P GP U GQ Q F -> U = em ++ x :: fu' ->
+  chase (pv r) (length GQ + length fu') (gprobeP P GP U GQ Q) = x.
+Proof.
+  intros HR EU.
+  assert (E : rev Q ++ (P ++ GP ++ U ++ rev GQ) = (rev Q ++ P ++ GP ++ em ++ [x]) ++ (fu' ++ rev GQ)).
+  { rewrite EU. rewrite <- !app_assoc. reflexivity. }
+  unfold gprobeP. rewrite E.
+  replace (length GQ + length fu') with (length (fu' ++ rev GQ)) by (rewrite app_length, rev_length; lia).
+  destruct (walk_chase_bwd (nx r) (pv r) (fu' ++ rev GQ) (rev Q ++ P ++ GP ++ em ++ [x]) 0) as [_ Hc].
+  - rewrite <- E. apply (rot_linked r P GP U GQ Q F HR). unfold ring5. rewrite <- !app_assoc. reflexivity.
+  - rewrite <- E. apply (rot_ne r P GP U GQ Q F HR). unfold ring5. rewrite <- !app_assoc. reflexivity.
+  - rewrite Hc. rewrite !app_assoc. apply last_last.
+Qed.
+
+(** * get_missed_entry: which entry is recycled *)
+Lemma nodup_hd_neq (l1 l2 : list nat) a u :
+  NoDup ((a :: l1) ++ u :: l2) -> a <> u.
+Proof.
+  intros Hnd ->. pose proof (nodup_cnt _ u Hnd) as Hc.
+  rewrite cnt_app, !cnt_cons_eq in Hc. lia.
+Qed.
+
+Lemma missed_select r P GP U GQ Q F :
+  Rl r P GP U GQ Q F ->
+  let eprobe := eprobeP P GP U GQ Q in
+  let eprec := eprecP P GP U GQ Q in
+  let sel := if nx r eprobe =? eprec then
+               if negb (ngprobe r =? 0) then (rset_ngprobe (ngprobe r - 1) r, nx r eprobe)
+               else if negb (ngprec r =? 0) then (rset_ngprec (ngprec r - 1) r, eprobe)
+               else (r, eprobe)
+             else (r, eprobe) in
+  (forall u' e, U = u' ++ [e] -> sel = (r, e)) /\
+  (forall g' e, U = [] -> GQ = g' ++ [e] ->
+     sel = (rset_ngprobe (length g') r, e) /\ Rl (rset_ngprobe (length g') r) P GP [e] g' Q F) /\
+  (forall g' e, U = [] -> GQ = [] -> GP = g' ++ [e] ->
+     sel = (rset_ngprec (length g') r, e) /\ Rl (rset_ngprec (length g') r) P g' [e] [] Q F).
+Proof.
+  intros HR. cbn zeta.
+  set (M := rev GQ ++ rev Q ++ P ++ GP ++ U).
+  assert (EM0 : M = (rev GQ ++ rev Q) ++ P ++ GP ++ U) by (unfold M; rewrite <- app_assoc; reflexivity).
+  assert (HM : linked (nx r) (pv r) M).
+  { rewrite EM0. apply (rot_linked r P GP U GQ Q F HR (P ++ GP ++ U) (rev GQ ++ rev Q)).
+    unfold ring5. rewrite <- !app_assoc. reflexivity. }
+  assert (HMne : M <> []).
+  { rewrite EM0. apply (rot_ne r P GP U GQ Q F HR (P ++ GP ++ U) (rev GQ ++ rev Q)).
+    unfold ring5. rewrite <- !app_assoc. reflexivity. }
+  clear EM0.
+  assert (Hnxe : nx r (eprobeP P GP U GQ Q) = hd 0 M).
+  { unfold eprobeP. fold M. apply (linked_wrap _ _ _ 0 HM HMne). }
+  assert (HndM : NoDup M) by (apply (linked_NoDup _ _ _ HM)).
+  split; [|split].
+  - (* an unused entry exists: it is the last one, whatever the test says *)
+    intros u' e EU.
+    assert (Hep : eprobeP P GP U GQ Q = e).
+    { unfold eprobeP. rewrite EU, !app_assoc. apply last_last. }
+    rewrite Hep in *. rewrite Hnxe.
+    destruct (Nat.eqb_spec (hd 0 M) (eprecP P GP U GQ Q)) as [Heq|]; [|reflexivity].
+    (* then the ring consists of unused entries only *)
+    assert (Hall : rev GQ ++ rev Q ++ P ++ GP = []).
+    { destruct (rev GQ ++ rev Q ++ P ++ GP) as [|a m] eqn:E; [reflexivity|]. exfalso.
+      unfold eprecP in Heq. rewrite EU in Heq.
+      assert (EM : M = (a :: m) ++ u' ++ [e]) by (unfold M; rewrite EU, <- E, <- !app_assoc; reflexivity).
+      rewrite EM in Heq, HndM. cbn [app hd] in Heq.
+      destruct u' as [|u u'']; cbn [app hd] in Heq.
+      - apply (nodup_hd_neq m [] a e); [exact HndM|exact Heq].
+      - apply (nodup_hd_neq m (u'' ++ [e]) a u); [exact HndM|exact Heq]. }
+    apply app_eq_nil in Hall. destruct Hall as [E1 Hall].
+    apply app_eq_nil in Hall. destruct Hall as [_ Hall].
+    apply app_eq_nil in Hall. destruct Hall as [_ E4].
+    assert (GQ = []) by (destruct GQ; [reflexivity|cbn in E1; destruct (rev GQ); discriminate]).
+    subst GQ GP. rewrite (L_ngq _ _ _ _ _ _ _ HR), (L_ngp _ _ _ _ _ _ _ HR). reflexivity.
+  - intros g' e EU EGQ. subst U GQ.
+    assert (Heq : hd 0 M = eprecP P GP [] (g' ++ [e]) Q).
+    { unfold eprecP, M. rewrite !app_nil_r. cbn [app]. rewrite <- !app_assoc. reflexivity. }
+    rewrite Hnxe, Heq, Nat.eqb_refl.
+    rewrite (L_ngq _ _ _ _ _ _ _ HR), app_length. cbn [length].
+    replace (length g' + 1 =? 0) with false by (symmetry; apply Nat.eqb_neq; lia). cbn [negb].
+    replace (length g' + 1 - 1) with (length g') by lia.
+    assert (Hhd : hd 0 M = e).
+    { unfold M. rewrite rev_app_distr. reflexivity. }
+    rewrite <- Heq, Hhd. split; [reflexivity|].
+    destruct HR as [H1 H2 H3 H4 H5 H6 H7 H8 H9 H10].
+    assert (E5 : ring5 P GP [e] g' Q = ring5 P GP [] (g' ++ [e]) Q).
+    { unfold ring5. rewrite rev_app_distr. cbn [rev app]. rewrite <- ?app_assoc. reflexivity. }
+    constructor; rsimp; rewrite ?E5; try assumption. reflexivity.
+  - intros g' e EU EGQ EGP. subst U GQ GP.
+    assert (Heq : hd 0 M = eprecP P (g' ++ [e]) [] [] Q).
+    { unfold eprecP, M. cbn [rev app]. rewrite !app_nil_r. rewrite <- !app_assoc. reflexivity. }
+    rewrite Hnxe, Heq, Nat.eqb_refl.
+    rewrite (L_ngq _ _ _ _ _ _ _ HR), (L_ngp _ _ _ _ _ _ _ HR), app_length. cbn [length Nat.eqb negb].
+    replace (length g' + 1 =? 0) with false by (symmetry; apply Nat.eqb_neq; lia). cbn [negb].
+    replace (length g' + 1 - 1) with (length g') by lia.
+    assert (Hep : eprobeP P (g' ++ [e]) [] [] Q = e).
+    { unfold eprobeP. cbn [rev app]. rewrite app_nil_r, !app_assoc. apply last_last. }
+    rewrite Hep. split; [reflexivity|].
+    destruct HR as [H1 H2 H3 H4 H5 H6 H7 H8 H9 H10].
+    assert (E5 : ring5 P g' [e] [] Q = ring5 P (g' ++ [e]) [] [] Q).
+    { unfold ring5. cbn [rev app]. rewrite <- ?app_assoc. reflexivity. }
+    constructor; rsimp; rewrite ?E5; try assumption. reflexivity.
+Qed.
+
+(** * cache_flush / cache_alloc *)
+Lemma rl_fresh r c : 0 < c ->
+  nx r = flush_nx c -> pv r = flush_pv c -> split r = 0 ->
+  nprec r = 0 -> ngprec r = 0 -> nprobe r = 0 -> ngprobe r = 0 -> ninflight r = 0 ->
+  Rl r [] [] (rev (seq 0 (2 * c))) [] [] [].
+Proof.
+  intros Hc E1 E2 E3 E4 E5 E6 E7 E8.
+  assert (E : ring5 [] [] (rev (seq 0 (2 * c))) [] [] = rev (seq 0 (2 * c))).
+  { unfold ring5. cbn [rev app]. apply app_nil_r. }
+  constructor; rewrite ?E, ?E1, ?E2, ?E3, ?E4, ?E5, ?E6, ?E7, ?E8; try reflexivity.
+  - apply flush_linked. exact Hc.
+  - replace (2 * c) with (S (2 * c - 1)) by lia. rewrite seq_S, rev_app_distr. discriminate.
+  - replace (2 * c) with (S (2 * c - 1)) by lia. cbn [seq rev]. apply last_last.
+  - rewrite app_nil_r. apply NoDup_rev, seq_NoDup.
+  - intros H; congruence.
+Qed.
+
+Lemma R_init c : 0 < c -> R (rinit c) (init c).
+Proof.
+  intros Hc. split; [|reflexivity]. cbn [init prec gprec unused gprobe probe infl].
+  apply (rl_fresh _ c); try reflexivity. exact Hc.
+Qed.
+
+(** * The operations *)
+Definition sim_post (r : rst) (s : st) (o : op) : Prop :=
+  exists s' r' x ev, step true s o = Ok (s', x, ev) /\ rstep r o = ROk (r', x, ev) /\ R r' s'.
+
+Ltac aux_inv H :=
+  unfold raux, saux in H;
+  let A1 := fresh "Adp" in let A2 := fresh "Acap" in let A3 := fresh "Akey" in
+  let A4 := fresh "Aref" in let A5 := fresh "Adata" in let A6 := fresh "Aest" in
+  let A7 := fresh "Ahits" in let A8 := fresh "Amiss" in let A9 := fresh "Apend" in
+  let A10 := fresh "Aplain" in let A11 := fresh "Acont" in
+  injection H as A1 A2 A3 A4 A5 A6 A7 A8 A9 A10 A11.
+
+Ltac aux_done :=
+  unfold raux, saux; rsimp; simp_st;
+  repeat match goal with H : _ = _ |- _ => rewrite H end; reflexivity.
+
+Lemma sim_put r s e : R r s -> InvC s -> In e (plain s) -> sim_post r s (Put e).
+Proof.
+  intros [HRl Haux] H Hin. aux_inv Haux.
+  destruct (put_ok s e H Hin) as (s' & Hs & _).
+  unfold sim_post. cbn [step rstep]. rewrite Hs.
+  unfold do_put in Hs. unfold r_do_put. rsimp. simp_st. rewrite Aref, Aplain.
+  destruct (ref s e) as [|n]; [discriminate|]. inversion Hs; subst s'.
+  do 4 eexists. split; [reflexivity|]. split; [reflexivity|]. split.
+  - simp_st. apply (Rl_ptr r); [reflexivity|exact HRl].
+  - unfold raux, saux. rsimp. simp_st. congruence.
+Qed.
+
+Lemma sim_discard r s e : R r s -> InvC s -> In e (pend s) -> sim_post r s (Discard e).
+Proof.
+  intros [HRl Haux] H Hin. aux_inv Haux.
+  destruct (discard_ok s e H Hin) as (s' & Hs & _).
+  unfold sim_post. cbn [step rstep]. rewrite Hs.
+  unfold do_discard in Hs. unfold r_do_discard. rsimp. simp_st. rewrite Aref, Apend, Aest.
+  destruct (ref s e) as [|c]; [discriminate|].
+  destruct (negb (c =? 0)).
+  { inversion Hs; subst s'. do 4 eexists. split; [reflexivity|]. split; [reflexivity|]. split.
+    - simp_st. apply (Rl_ptr r); [reflexivity|exact HRl].
+    - unfold raux, saux. rsimp. simp_st. congruence. }
+  destruct (estate_valid (est s e)).
+  { inversion Hs; subst s'. do 4 eexists. split; [reflexivity|]. split; [reflexivity|]. split.
+    - simp_st. apply (Rl_ptr r); [reflexivity|exact HRl].
+    - unfold raux, saux. rsimp. simp_st. congruence. }
+  destruct (existsb (Nat.eqb e) (infl s)) eqn:Hmem; [|discriminate].
+  apply memb_in in Hmem. inversion Hs; subst s'. clear Hs.
+  assert (Hn : ninflight r = S (length (infl s) - 1)).
+  { rewrite (L_nin _ _ _ _ _ _ _ HRl). destruct (infl s); [contradiction|cbn [length]; lia]. }
+  rewrite Hn.
+  set (r1 := rset_ref (upd (ref s) e c) (rset_pend (rm1 e (pend s)) r)).
+  assert (HRl1 : Rl r1 (prec s) (gprec s) (unused s) (gprobe s) (probe s) (infl s))
+    by (apply (Rl_ptr r); [reflexivity|exact HRl]).
+  destruct (rl_infl_remove r1 _ _ _ _ _ _ e (length (infl s) - 1) HRl1 Hmem Hn) as [HRl4 Hni].
+  cbn zeta in HRl4.
+  pose proof (rl_discard_tail _ _ _ _ _ _ _ e HRl4 Hni) as HRl5. cbn zeta in HRl5.
+  do 4 eexists. split; [reflexivity|]. split; [reflexivity|]. split.
+  - simp_st. exact HRl5.
+  - unfold raux, saux. subst r1. rsimp. simp_st.
+    destruct (inflight r =? e); rsimp; destruct (_ =? 0); rsimp; congruence.
+Qed.
+
+Lemma sim_insert r s e : R r s -> InvC s -> In e (pend s) -> sim_post r s (Insert e).
+Proof.
+  intros [HRl Haux] H Hin. aux_inv Haux.
+  destruct (insert_ok s e H Hin) as (s' & Hs & _).
+  unfold sim_post. cbn [step rstep]. rewrite Hs.
+  unfold do_insert in Hs. unfold r_do_insert. rsimp. simp_st.
+  rewrite Adata, Apend, Aplain, Akey, Acont.
+  set (r1 := match data s e with
+             | Some t => rset_content (upd (content s) t (Some (key s e)))
+                           (rset_plain (plain s ++ [e]) (rset_pend (rm1 e (pend s)) r))
+             | None => rset_plain (plain s ++ [e]) (rset_pend (rm1 e (pend s)) r)
+             end).
+  set (s1 := match data s e with
+             | Some t => set_content (upd (content s) t (Some (key s e)))
+                           (set_plain (plain s ++ [e]) (set_pend (rm1 e (pend s)) s))
+             | None => set_plain (plain s ++ [e]) (set_pend (rm1 e (pend s)) s)
+             end) in *.
+  assert (Hp1 : rptr r1 = rptr r) by (unfold r1; destruct (data s e); reflexivity).
+  assert (Ha1 : raux r1 = saux s1).
+  { unfold r1, s1, raux, saux. destruct (data s e); rsimp; simp_st; congruence. }
+  assert (Hl1 : prec s1 = prec s /\ gprec s1 = gprec s /\ unused s1 = unused s /\
+                gprobe s1 = gprobe s /\ probe s1 = probe s /\ infl s1 = infl s /\ est s1 = est s).
+  { unfold s1. destruct (data s e); repeat split; reflexivity. }
+  destruct Hl1 as (L1 & L2 & L3 & L4 & L5 & L6 & L7).
+  assert (HRl1 : Rl r1 (prec s) (gprec s) (unused s) (gprobe s) (probe s) (infl s))
+    by (apply (Rl_ptr r); assumption).
+  assert (He1 : rest r1 = est s).
+  { unfold raux, saux in Ha1. injection Ha1 as _ _ _ _ _ Ha _ _ _ _ _. rewrite Ha. exact L7. }
+  clearbody r1 s1.
+  rewrite He1. rewrite L7 in Hs.
+  destruct (estate_valid (est s e)) eqn:Hv.
+  { inversion Hs; subst s'. do 4 eexists. split; [reflexivity|]. split; [reflexivity|]. split.
+    - rewrite L1, L2, L3, L4, L5, L6. exact HRl1.
+    - exact Ha1. }
+  rewrite L6 in Hs.
+  destruct (existsb (Nat.eqb e) (infl s)) eqn:Hmem; [|discriminate].
+  apply memb_in in Hmem. inversion Hs; subst s'. clear Hs.
+  assert (Hn : ninflight r1 = S (length (infl s) - 1)).
+  { rewrite (L_nin _ _ _ _ _ _ _ HRl1). destruct (infl s); [contradiction|cbn [length]; lia]. }
+  rewrite Hn.
+  destruct (rl_infl_remove r1 _ _ _ _ _ _ e (length (infl s) - 1) HRl1 Hmem Hn) as [HRl4 Hni].
+  cbn zeta in HRl4.
+  unfold raux, saux in Ha1. injection Ha1 as B1 B2 B3 B4 B5 B6 B7 B8 B9 B10 B11.
+  rsimp.
+  set (r3 := if inflight r1 =? e
+             then rset_inflight (nx r1 e) (rset_ninflight (length (infl s) - 1) r1)
+             else rset_ninflight (length (infl s) - 1) r1) in *.
+  assert (Hr3 : raux r3 = raux r1) by (unfold r3; destruct (inflight r1 =? e); reflexivity).
+  unfold raux in Hr3. injection Hr3 as C1 C2 C3 C4 C5 C6 C7 C8 C9 C10 C11.
+  rewrite C6, He1.
+  destruct (est s e) eqn:Hest; [discriminate| |];
+    (do 4 eexists; split; [reflexivity|]; split; [reflexivity|]; split;
+     [ simp_st; rewrite ?L1, ?L2, ?L3, ?L4, ?L5
+     | unfold raux, saux; rsimp; simp_st; congruence ]).
+  - eapply Rl_ptr; [|exact (rl_insert_probe _ _ _ _ _ _ _ e HRl4 Hni)]. reflexivity.
+  - eapply Rl_ptr; [|exact (rl_insert_prec _ _ _ _ _ _ _ e HRl4 Hni)]. reflexivity.
+Qed.
+
+Lemma sim_flush r s : R r s -> InvC s -> pend s = [] /\ plain s = [] -> sim_post r s Flush.
+Proof.
+  intros [HRl Haux] H Hl. aux_inv Haux.
+  unfold sim_post. cbn [step rstep]. unfold do_flush, r_do_flush, r_cleanup_list.
+  rewrite (proj1 (ptr_prec _ _ _ _ _ _ _ HRl)), (proj1 (ptr_probe _ _ _ _ _ _ _ HRl)).
+  rewrite Aref, Acap.
+  do 4 eexists. split; [reflexivity|]. split; [reflexivity|]. split.
+  - simp_st. apply (rl_fresh _ (cap s)); try reflexivity. exact (C_cap _ H).
+  - unfold raux, saux. rsimp. simp_st. congruence.
+Qed.
